@@ -531,19 +531,10 @@ example :
 
 Until round 8 the three wallet facts of an output (`canSpend`, `scriptAllow`, `xpub`) were inputs of the model.  Here they
 are *computed* from the structure of the script (which address form of which derived key), the output's derivation path,
-the key-derivation style and the allowlist, by the model of `impl Wallet for Node`; the harness group `C08Wallet` runs that
-model against the real `Node`.  `C08_credited_scripts` then says what an accepted transaction can pay to. -/
+the key-derivation style and the allowlist, by the model of `impl Wallet for Node` (`Onchain.outOfScript`; the driver model uses it too: the harness sends script
+descriptors, not facts); the harness group `C08Wallet` runs the wallet model against the real `Node`.  `C08_credited_scripts` then says what an accepted transaction can pay to. -/
 section WalletLogic
 open VlsModel.Wallet
-
-/-- the facts `validate_onchain_tx` obtains from the wallet for one output -/
-def outOfScript (style : Style) (allow : List Allowable) (value : Nat) (path : List Nat) (s : Script)
-    (chan : Option ChanFacts) : Out :=
-  { value := value, pathLen := path.length, canSpend := canSpend style path s,
-    scriptAllow := allow.contains (.script s),
-    xpub := match xpubLoop path s allow with
-      | .yes => .yes | .no => .no | .panic => .panic,
-    chan := chan }
 
 /-- **C08 (destinations)**: an output classified *wallet* pays one of the three segwit forms of the node's own key at
     the output's path (of the length the style admits); *xpubAllow* pays a p2wpkh / p2pkh / p2tr child, at that path, of
